@@ -154,6 +154,9 @@ type Result struct {
 	SpawnGen     []int
 	CrashSteps   []int
 	Faults       int
+	// LeakedWorkers counts generations whose batch worker could not be stopped because the
+	// runner loop had died by a panic that was not a store failure.
+	LeakedWorkers int
 }
 
 // ---------------------------------------------------------------------------
@@ -471,6 +474,15 @@ func (s *Sim) kill(g *generation) string {
 			if isClosed {
 				return ""
 			}
+			if runnerDead {
+				// the runner loop died by a panic of its own while a batch worker was still waiting
+				// for work: that worker can never be stopped (its job channel is unreachable).
+				// The history is still judged; the goroutines are left behind and counted.
+				s.mu.Lock()
+				s.res.LeakedWorkers++
+				s.mu.Unlock()
+				return ""
+			}
 			return "generation could not be shut down (runner blocked)"
 		}
 		for _, p := range mine {
@@ -658,6 +670,9 @@ func Run(t *testing.T, plan *Plan) (res *Result) {
 		if p := recover(); p != nil {
 			msg := fmt.Sprint(p)
 			if strings.Contains(msg, "deadlock: main bubble goroutine has exited") {
+				if res.LeakedWorkers > 0 {
+					return // expected: see LeakedWorkers
+				}
 				res.HarnessErr = "goroutines left blocked at the end of the case: " + msg
 				return
 			}
